@@ -371,10 +371,157 @@ fn walk(pp: &mut ParsedPacket, sec: &str, incl_opt: bool, plan: &str) -> String 
 
 // ---- one op -------------------------------------------------------------------------------
 
+// ---- C16: barrier-scripted interleavings of failing table calls and error_description reads ------
+
+const ERR_KINDS: usize = 5;
+
+fn schedule(nthreads: usize, steps: &str) -> String {
+    use std::ffi::CStr;
+    use std::sync::{Arc, Condvar, Mutex};
+    // steps: "t:f<kind>" | "t:r", '.'-separated, executed in exactly this global order
+    let parsed: Vec<(usize, char, usize)> = steps
+        .split('.')
+        .map(|s| {
+            let (t, a) = s.split_once(':').unwrap();
+            let kind = if a.len() > 1 { a[1..].parse().unwrap() } else { 0 };
+            (t.parse().unwrap(), a.as_bytes()[0] as char, kind)
+        })
+        .collect();
+    let parsed = Arc::new(parsed);
+    let turn = Arc::new((Mutex::new(0usize), Condvar::new()));
+    let results = Arc::new(Mutex::new(vec![String::new(); parsed.len()]));
+    let mut handles = Vec::new();
+    for t in 0..nthreads {
+        let parsed = parsed.clone();
+        let turn = turn.clone();
+        let results = results.clone();
+        handles.push(std::thread::spawn(move || {
+            let table = dnssector::c_abi::fn_table();
+            let base: Vec<u8> = vec![0, 7, 0x81, 0x80, 0, 1, 0, 0, 0, 0, 0, 0, 1, b'q', 0, 0, 1, 0, 1];
+            let mut pp = DNSSector::new(base).unwrap().parse().unwrap();
+            let mut c_err: *const dnssector::c_abi::CErr = std::ptr::null();
+            for (i, (st, act, kind)) in parsed.iter().enumerate() {
+                if *st != t {
+                    continue;
+                }
+                let (lock, cv) = &*turn;
+                let mut g = lock.lock().unwrap();
+                while *g != i {
+                    g = cv.wait(g).unwrap();
+                }
+                let out = unsafe {
+                    match act {
+                        'f' => {
+                            let mut raw = [0u8; 256];
+                            let mut raw_len: usize = 0;
+                            let rc = match kind % ERR_KINDS {
+                                0 => {
+                                    let n = b"a..b";
+                                    (table.raw_name_from_str)(&mut raw, &mut raw_len, &mut c_err, n.as_ptr() as *const _, n.len())
+                                }
+                                1 => {
+                                    let n = [b'a'; 64];
+                                    (table.raw_name_from_str)(&mut raw, &mut raw_len, &mut c_err, n.as_ptr() as *const _, n.len())
+                                }
+                                2 => {
+                                    let n = [b'a'; 300];
+                                    (table.raw_name_from_str)(&mut raw, &mut raw_len, &mut c_err, n.as_ptr() as *const _, n.len())
+                                }
+                                3 => {
+                                    let n = [0xc3u8, 0xa9];
+                                    (table.raw_name_from_str)(&mut raw, &mut raw_len, &mut c_err, n.as_ptr() as *const _, n.len())
+                                }
+                                _ => {
+                                    let txt = b"not a record\0";
+                                    (table.add_to_answer)(&mut pp, &mut c_err, txt.as_ptr() as *const _)
+                                }
+                            };
+                            format!("rc={}", rc)
+                        }
+                        _ => {
+                            if c_err.is_null() {
+                                "nofail".to_string()
+                            } else {
+                                let p = (table.error_description)(c_err);
+                                CStr::from_ptr(p).to_string_lossy().replace(' ', "_")
+                            }
+                        }
+                    }
+                };
+                results.lock().unwrap()[i] = out;
+                *g += 1;
+                cv.notify_all();
+            }
+        }));
+    }
+    for h in handles {
+        if h.join().is_err() {
+            return "PANIC-IN-THREAD".to_string();
+        }
+    }
+    let r = results.lock().unwrap();
+    format!("H[{}]", r.join(" "))
+}
+
+/// C17: f(x) alone, after f(y), and concurrently on 8 threads must be byte-identical.
+fn purity(opx: &str, opy: &str) -> String {
+    let fresh = |op: &str| -> String {
+        let mut c = Ctx { pp: None };
+        run_op(&mut c, op)
+    };
+    let r1 = fresh(opx);
+    let _ = fresh(opy);
+    let r2 = fresh(opx);
+    if r1 != r2 {
+        return format!("DIFF-AFTER-OTHER:{}|{}", r1, r2);
+    }
+    // same thread, shared context object reused
+    let mut c = Ctx { pp: None };
+    let _ = run_op(&mut c, opy);
+    let r3 = run_op(&mut c, opx);
+    if r1 != r3 {
+        return format!("DIFF-SAME-CONTEXT:{}|{}", r1, r3);
+    }
+    let mut hs = Vec::new();
+    for k in 0..8 {
+        let (ox, oy) = (opx.to_string(), opy.to_string());
+        hs.push(std::thread::spawn(move || {
+            let mut outs = Vec::new();
+            for j in 0..6 {
+                let mut c = Ctx { pp: None };
+                if (j + k) % 2 == 0 {
+                    let _ = run_op(&mut c, &oy);
+                }
+                let mut c2 = Ctx { pp: None };
+                outs.push(run_op(&mut c2, &ox));
+            }
+            outs
+        }));
+    }
+    for h in hs {
+        match h.join() {
+            Err(_) => return "PANIC-IN-THREAD".to_string(),
+            Ok(outs) => {
+                for o in outs {
+                    if o != r1 {
+                        return format!("DIFF-CONCURRENT:{}|{}", r1, o);
+                    }
+                }
+            }
+        }
+    }
+    format!("SAME:{}", r1)
+}
+
 fn run_op(ctx: &mut Ctx, op: &str) -> String {
+    if let Some(rest) = op.strip_prefix("HP|") {
+        let (x, y) = rest.split_once('|').unwrap();
+        return purity(x, y);
+    }
     let f: Vec<&str> = op.split(',').collect();
     match f[0] {
         // ---- stateless -------------------------------------------------------------
+        "H" => schedule(f[1].parse().unwrap(), f[2]),
         "K" => {
             let p = unhex(f[1]);
             let off: usize = f[2].parse().unwrap();
